@@ -62,6 +62,17 @@ claim('C02',
       'property statement.',
       'symbolic width typing of Gell-Mann coefficient vectors against the record layout [S|A|D|I]; exact polynomial parameter counts',
       'DESIGN.md 4 (W, G), 5 C02')
+claim('C12',
+      'Decides the index-convention clause for symbolic, unequal dim_in and dim_out: each of the 8 conversion / application routines '
+      'of numqi.channel returns a tensor of its declared axis type (kraus (k,out,in); choi (in,out|in\',out\'); super (out,out\'|in,in\'); '
+      'rho (in|in\')), interpreting reshape, literal transpose, .T, .conj(), @, kron and literal einsum lists on axis labels, with '
+      'contractions required to pair identical roles (X1) - a compensated slip that round-trips is a type error here because every '
+      'function is typed against the convention, not against its inverse; the three built-in noise channels are trace preserving '
+      'for EVERY rate, symbolically (TP); NumPy/PyTorch arms agree (B1); entropy formulas guard 0*log 0 (F1). Contractivity, '
+      'fidelity and entropy inequalities are value-level and NOT decided.',
+      'Trusted: the declared conventions, read from the module\'s own comments; size symbols din != dout.',
+      'abstract interpretation of array plumbing over axis-role labels with symbolic sizes; exact polynomial arithmetic for Kraus weights',
+      'DESIGN.md 4 (X, B), 5 C12')
 claim('C15',
       'Decides ONE clause: "a batch is converted element-wise whatever mixture of generic and degenerate rotations it contains" - '
       'by abstract interpretation of the Euler-angle extraction over the index-space lattice {Full, Masked(m), Scalar, Unknown}: '
@@ -122,7 +133,7 @@ claim('C19',
       'abstract interpretation of literal straight-line gate programs over the Pauli tableau domain; finite exhaustive enumeration of errors below d',
       'DESIGN.md 4 (Q), 5 C19')
 
-for _pid in ['C06', 'C08', 'C12', 'C13']:
+for _pid in ['C06', 'C08', 'C13']:
     na(_pid, 'static rules for this property are designed (DESIGN.md 5) but not yet implemented in this revision; not claimed until they are')
 na('C09', 'bijectivity/counting of the Sp(2n,F2) indexing and the transvection lemma are properties of runtime bit vectors under data-dependent branching; no code-shape clause of substance')
 na('C14', 'group axioms of computed Cayley tables, partition and tableau counts are value-level combinatorics; only a 4x4 literal is visible statically')
